@@ -334,62 +334,114 @@ theorem xclaim_moves (g : Group) (c : Name) (elig : Bool) (ids : List Id) :
   ⟨(claim_refines g c elig ids).1, (claim_refines g c elig ids).2, fun h => agree_claim h c elig ids⟩
 
 /-- XCLAIM's idle threshold is measured from the LAST delivery: after a successful claim of `id` at time `t` (which
-    stamps the row with `t`), any claim of `id` without FORCE and with min-idle `T` at a time `t'` with `t' - t < T`
-    — in particular immediately, `t' = t`, for every `T > 0` — is refused: nothing is claimed, the owner, the delivery
-    count and every other representation stay as the first claim left them (only the would-be claimer is created). -/
-theorem claim_resets_idle (g : Group) (ts : Code.Times) (c c' : Name) (t t' T T' : Nat) (force : Bool) (id : Id)
-    (h : (Code.claimT (g, ts) c t T' force [id]).2 = [id]) (hT : t' - t < T) :
-    let s1 := (Code.claimT (g, ts) c t T' force [id]).1
-    (Code.claimT s1 c' t' T false [id]).2 = [] ∧
-    (Code.claimT s1 c' t' T false [id]).1 = (Code.createConsumer s1.1 c', s1.2) ∧
+    stamps the row with `t`, whether the row changed hands or was created by FORCE), any claim of `id` without FORCE
+    and with min-idle `T` at a time `t'` with `t' - t < T` — in particular immediately, `t' = t`, for every `T > 0` —
+    is refused: nothing is claimed, the owner, the delivery count and every other representation stay as the first
+    claim left them (only the would-be claimer is created).  On every tree. -/
+theorem claim_resets_idle (q : Quirks) (stream : List Id) (g : Group) (ts : Code.Times) (c c' : Name)
+    (t t' T T' : Nat) (force : Bool) (id : Id)
+    (h : (Code.claimT q stream (g, ts) c t T' force [id]).2 = [id]) (hT : t' - t < T) :
+    let s1 := (Code.claimT q stream (g, ts) c t T' force [id]).1
+    (Code.claimT q stream s1 c' t' T false [id]).2 = [] ∧
+    (Code.claimT q stream s1 c' t' T false [id]).1 = (Code.createConsumer s1.1 c', s1.2) ∧
     Code.lastOf s1.2 id = t := by
-  have hr : (Code.claimOne c (Code.idleOk t (Code.lastOf ts id) T' force) (Code.createConsumer g c) id).2 = true := by
+  have hr : (Code.claimStepT q c t T' force stream (Code.createConsumer g c, ts) id).2 = true := by
     simp only [Code.claimT, Code.claimLoopT] at h
-    cases hx : (Code.claimOne c (Code.idleOk t (Code.lastOf ts id) T' force) (Code.createConsumer g c) id).2 with
+    cases hx : (Code.claimStepT q c t T' force stream (Code.createConsumer g c, ts) id).2 with
     | true => rfl
     | false => rw [hx] at h; simp at h
   intro s1
-  have hs1 : s1.2 = Code.setLast ts id t := by
-    show (Code.claimT (g, ts) c t T' force [id]).1.2 = _
-    simp only [Code.claimT, Code.claimLoopT, hr, if_true]
-  have hlast : Code.lastOf s1.2 id = t := by rw [hs1, lastOf_setLast]
+  have hs1 : s1 = (Code.claimStepT q c t T' force stream (Code.createConsumer g c, ts) id).1 := rfl
+  have hlast : Code.lastOf s1.2 id = t := by
+    rw [hs1]
+    unfold Code.claimStepT at hr ⊢
+    cases hf : pelFind id (Code.createConsumer g c, ts).1.byId with
+    | some e =>
+      rw [hf] at hr; simp only at hr ⊢
+      simp only [hr, if_true]; exact lastOf_setLast ts id t
+    | none =>
+      rw [hf] at hr; simp only at hr ⊢
+      split
+      · exact lastOf_setLast ts id t
+      · rename_i hc; rw [if_neg hc] at hr; cases hr
+  have hstep : Code.claimStepT q c' t' T false stream (Code.createConsumer s1.1 c', s1.2) id =
+      ((Code.createConsumer s1.1 c', s1.2), false) :=
+    claimStepT_refused q c' t' T stream _ id (by show t' - Code.lastOf s1.2 id < T; rw [hlast]; exact hT)
   refine ⟨?_, ?_, hlast⟩
-  · simp only [Code.claimT, Code.claimLoopT, hlast, idleOk_within hT, claimOne_false]
-    simp
-  · simp only [Code.claimT, Code.claimLoopT, hlast, idleOk_within hT, claimOne_false]
-    simp
+  · simp only [Code.claimT, Code.claimLoopT, hstep]; simp
+  · simp only [Code.claimT, Code.claimLoopT, hstep]
 
 /-- Once the threshold has elapsed since that last claim, the entry can be claimed again (the test is exactly
     `T ≤ now - last_delivery`). -/
-theorem claim_allowed_after_idle (g : Group) (ts : Code.Times) (c : Name) (now T : Nat) (id : Id) (e : PEntry)
+theorem claim_allowed_after_idle (q : Quirks) (stream : List Id) (g : Group) (ts : Code.Times) (c : Name) (now T : Nat)
+    (id : Id) (e : PEntry)
     (hp : pelFind id (Code.createConsumer g c).byId = some e) (hT : T ≤ now - Code.lastOf ts id) :
-    (Code.claimT (g, ts) c now T false [id]).2 = [id] ∧
-    Code.lastOf (Code.claimT (g, ts) c now T false [id]).1.2 id = now := by
+    (Code.claimT q stream (g, ts) c now T false [id]).2 = [id] ∧
+    Code.lastOf (Code.claimT q stream (g, ts) c now T false [id]).1.2 id = now := by
   have hok : Code.idleOk now (Code.lastOf ts id) T false = true := by simp [Code.idleOk, hT]
   have hr : (Code.claimOne c true (Code.createConsumer g c) id).2 = true := by rw [claimOne_some hp]
+  have hstep : Code.claimStepT q c now T false stream (Code.createConsumer g c, ts) id =
+      (((Code.claimOne c true (Code.createConsumer g c) id).1, Code.setLast ts id now), true) := by
+    unfold Code.claimStepT
+    simp only [hp, Bool.false_and, hok, hr, if_true]
   constructor
-  · simp only [Code.claimT, Code.claimLoopT, hok, hr, if_true]
-  · simp only [Code.claimT, Code.claimLoopT, hok, hr, if_true]
+  · simp only [Code.claimT, Code.claimLoopT, hstep, if_true]
+  · simp only [Code.claimT, Code.claimLoopT, hstep]
     exact lastOf_setLast ts id now
 
-/-- The timed claim is the Boolean one whenever the idle test has a uniform outcome (min-idle 0 or FORCE: passes;
-    a threshold larger than the clock: fails) — which is how the untimed histories of the check use it — and it
-    preserves the agreement of the representations whatever the times are. -/
-theorem claim_timed (g : Group) (ts : Code.Times) (c : Name) (now minIdle : Nat) (force b : Bool) (ids : List Id) :
-    ((∀ l, Code.idleOk now l minIdle force = b) →
-      (Code.claimT (g, ts) c now minIdle force ids).1.1 = (Code.claim g c b ids).1 ∧
-      (Code.claimT (g, ts) c now minIdle force ids).2 = (Code.claim g c b ids).2) ∧
-    (Agree g → Agree (Code.claimT (g, ts) c now minIdle force ids).1.1) := by
+/-- The timed claim is the Boolean one whenever the idle test has a uniform outcome and no row is created (min-idle 0:
+    passes; a threshold larger than the clock: fails; FORCE on the pinned tree: passes) — which is how the untimed
+    histories of the check use it — and it preserves the agreement of the representations whatever the times, the
+    switches and FORCE are (row creation included). -/
+theorem claim_timed (q : Quirks) (stream : List Id) (g : Group) (ts : Code.Times) (c : Name) (now minIdle : Nat)
+    (force b : Bool) (ids : List Id) :
+    ((∀ l, Code.idleOk now l minIdle (force && !q.forceFix) = b) → (q.forceFix && force) = false →
+      (Code.claimT q stream (g, ts) c now minIdle force ids).1.1 = (Code.claim g c b ids).1 ∧
+      (Code.claimT q stream (g, ts) c now minIdle force ids).2 = (Code.claim g c b ids).2) ∧
+    (Agree g → Agree (Code.claimT q stream (g, ts) c now minIdle force ids).1.1 ∧
+      (Code.claimT q stream (g, ts) c now minIdle force ids).1.1.lastDelivered = g.lastDelivered) := by
   constructor
+  · intro h hnc
+    exact claimLoopT_uniform q c now minIdle force b stream h hnc ids (Code.createConsumer g c, ts)
   · intro h
-    exact claimLoopT_uniform c now minIdle force b h ids (Code.createConsumer g c, ts)
-  · intro h
-    have h0 := agree_createConsumer h c
-    obtain ⟨h1, h2, h3⟩ := claimLoopT_agree c now minIdle force ids (Code.createConsumer g c, ts) h0.toAgreeCore
-      (alGet_consCreate_self c g.consumers)
-    exact { toAgreeCore := h1, total := by
-              show (Code.claimLoopT c now minIdle force (Code.createConsumer g c, ts) ids).1.1.totalPending = _
-              rw [h2]; exact h0.total.trans h3.symm }
+    exact claimLoopT_agree q c now minIdle force stream ids (Code.createConsumer g c, ts)
+      (agree_createConsumer h c) (alGet_consCreate_self c g.consumers)
+
+/-- XCLAIM as prescribed (tree with `forceFix`): an entry that is pending changes owner ONLY by a claim whose idle
+    threshold it meets — with or without FORCE, a step whose threshold is not met leaves the group exactly as it
+    was. -/
+theorem xclaim_owner_changes_only_when_idle_met (q : Quirks) (hq : q.forceFix = true) (c : Name) (now T : Nat)
+    (force : Bool) (stream : List Id) (s : Group × Code.Times) (id : Id) (e : PEntry)
+    (hp : pelFind id s.1.byId = some e) (h : now - Code.lastOf s.2 id < T) :
+    Code.claimStepT q c now T force stream s id = (s, false) :=
+  claimStepT_refused_force q hq c now T force stream s id e hp h
+
+/-- XCLAIM FORCE as prescribed (tree with `forceFix`): for an id that is pending for nobody, a row is created iff FORCE
+    is given and the entry exists in the stream; it is exactly the row (id, claimer, delivery count 1), stamped now,
+    with the claimer's counter and the total each one higher — and nothing else changes. -/
+theorem xclaim_force_creates_missing_rows (q : Quirks) (hq : q.forceFix = true) (c : Name) (now T : Nat) (force : Bool)
+    (stream : List Id) (s : Group × Code.Times) (id : Id) (hp : pelFind id s.1.byId = none) :
+    Code.claimStepT q c now T force stream s id =
+      (if force && stream.contains id then ((Code.addOne c s.1 id, Code.setLast s.2 id now), true) else (s, false)) ∧
+    (Code.addOne c s.1 id).byId = pelInsert ⟨id, c, 1⟩ s.1.byId ∧
+    (Code.addOne c s.1 id).totalPending = s.1.totalPending + 1 ∧
+    (Code.addOne c s.1 id).lastDelivered = s.1.lastDelivered := by
+  refine ⟨?_, rfl, rfl, rfl⟩
+  unfold Code.claimStepT
+  simp only [hp, hq, Bool.true_and]
+
+/-- WITNESS (hunt d1): on the pinned tree FORCE is backwards.  c1 holds 1-0, delivered at time 0; at time 5 a claim
+    with min-idle 3 600 000 and FORCE takes it (A), and FORCE on the existing, non-pending 3-0 creates nothing (B).
+    The repaired tree refuses A and creates the row for B. -/
+theorem xclaim_force_backwards_when_pinned :
+    let g := Code.addPending (Code.newGroup Quirks.pinned (0, 0)) 1 [(1, 0)]
+    (Code.claimT Quirks.pinned [(1, 0), (3, 0)] (g, []) 2 5 3600000 true [(1, 0)]).2 = [(1, 0)] ∧
+    (Code.claimT Quirks.pinned [(1, 0), (3, 0)] (g, []) 3 5 0 true [(3, 0)]).2 = [] ∧
+    (Code.claimT Quirks.fixed [(1, 0), (3, 0)] (g, []) 2 5 3600000 true [(1, 0)]).2 = [] ∧
+    (Code.claimT Quirks.fixed [(1, 0), (3, 0)] (g, []) 3 5 0 true [(3, 0)]).2 = [(3, 0)] ∧
+    (Code.claimT Quirks.fixed [(1, 0), (3, 0)] (g, []) 3 5 0 true [(3, 0), (9, 9)]).1.1.byId =
+      [⟨(1, 0), 1, 1⟩, ⟨(3, 0), 3, 1⟩] := by
+  refine ⟨by decide, by decide, by decide, by decide, by decide⟩
 
 /-- WITNESS of what the idle test must not do: measured from the FIRST delivery (time 0) instead of the last one, the
     second claim at time 400 with threshold 300 would pass (`300 ≤ 400 - 0`); measured as prescribed it is refused. -/
@@ -563,12 +615,12 @@ theorem create_destroy_effect (s : St) (gname : Name) (start : Id) (h : alGet gn
         alGet other (St.destroy s1 gname).1.groups = alGet other s.groups) ∧
     s1.stream = s.stream := by
   have e1 : (St.create Quirks.fixed s gname start).1 =
-      { s with groups := alSet gname (Code.newGroup Quirks.fixed start) s.groups } := by
+      { s with groups := alSet gname (Code.newGroup Quirks.fixed start) s.groups, keyExists := true } := by
     simp [St.create, h]
   have hget : alGet gname (alSet gname (Code.newGroup Quirks.fixed start) s.groups) =
       some (Code.newGroup Quirks.fixed start) := by rw [alGet_alSet]; simp
   intro s1
-  have hs1 : s1 = { s with groups := alSet gname (Code.newGroup Quirks.fixed start) s.groups } := e1
+  have hs1 : s1 = { s with groups := alSet gname (Code.newGroup Quirks.fixed start) s.groups, keyExists := true } := e1
   refine ⟨?_, ?_, ?_, ?_, ?_⟩
   · rw [hs1]; simp only [hget]; rfl
   · rw [hs1]; simp [St.create, hget]
@@ -650,6 +702,41 @@ theorem explicit_max_id (q : Quirks) :
     unfold Spec.readHist
     simp only [this, List.map_nil]
     cases count <;> simp
+
+/-- COUNT 0 (hunt d2): the property reads COUNT 0 as "no limit"; the repaired handler hands `read_group` no count, the
+    pinned one the literal 0, for which nothing is ever delivered (WITNESS). -/
+theorem count_zero_is_unlimited (q : Quirks) (stream : List Id) (a : Id) :
+    Code.countFrom Quirks.fixed 0 = none ∧ Code.countFrom Quirks.pinned 0 = some 0 ∧
+    (∀ n, n ≠ 0 → Code.countFrom q n = some n) ∧
+    rangeAfter stream a (some 0) = [] ∧ rangeAfter stream a none = stream.filter (fun x => idLt a x) := by
+  refine ⟨rfl, rfl, ?_, by simp [rangeAfter], rfl⟩
+  intro n h; simp [Code.countFrom, h]
+
+/-- A refused XGROUP CREATE (hunt d3): "administration has exactly these effects and no others" — on the repaired tree a
+    refused `CREATE key g <bad id> MKSTREAM` leaves a missing key missing; the pinned tree has created it (WITNESS). -/
+theorem refused_create_changes_nothing (q : Quirks) (existed : Bool) :
+    (q.createParseFix = true → Code.refusedCreateLeavesKey q existed = existed) ∧
+    Code.refusedCreateLeavesKey Quirks.pinned false = true := by
+  refine ⟨?_, rfl⟩
+  intro h; simp [Code.refusedCreateLeavesKey, h]
+
+/-- XPENDING bounds (hunt d4): the repaired handler reads a bound as the property prescribes (`boundSpec`); the pinned
+    one reads an incomplete id, an exclusive bound, `+` as a start and garbage as "unbounded" (WITNESSES), so the reply
+    lists rows outside the requested range.  The prescribed reading of the hunter's examples. -/
+theorem xpending_bounds (q : Quirks) (hq : q.boundFix = true) (isStart excl : Bool) (b : Code.Bound) :
+    Code.boundCode q isStart excl b = (Code.boundSpec isStart excl b).map some ∧
+    Code.boundCode Quirks.pinned true false (.ms 2) = some none ∧
+    Code.boundCode Quirks.pinned true true (.full (2, 0)) = some none ∧
+    Code.boundCode Quirks.pinned true false .plus = some none ∧
+    Code.boundCode Quirks.pinned true false .junk = some none ∧
+    Code.boundSpec true false (.ms 2) = some (2, 0) ∧
+    Code.boundSpec false false (.ms 2) = some (2, 18446744073709551615) ∧
+    Code.boundSpec true true (.full (2, 0)) = some (2, 1) ∧
+    Code.boundSpec false true (.full (3, 0)) = some (2, 18446744073709551615) ∧
+    Code.boundSpec true false .plus = some Code.maxId ∧
+    Code.boundSpec true true .plus = none ∧
+    Code.boundSpec false false .junk = none := by
+  refine ⟨by simp [Code.boundCode, hq], rfl, rfl, rfl, rfl, rfl, rfl, rfl, rfl, rfl, rfl, rfl⟩
 
 /-! ### Non-vacuity: concrete non-trivial instances of the hypotheses -/
 
